@@ -134,7 +134,7 @@ def serialise(prog: Dict[str, Any]) -> bytes:
         out += [b"1 begincodespacerange", b"<" + lo + b">" + gap + b"<" + hi + b">", b"endcodespacerange"]
     for kind, entries in prog["blocks"]:
         if style & 32:
-            out.append(b"% block of %d" % len(entries))
+            out.append(b"%% block of %d" % len(entries))
         if kind == "bfchar":
             out.append(b"%d beginbfchar" % len(entries))
             for src, dst in entries:
